@@ -179,12 +179,15 @@ def damage(rng, lay, row, cls):
 ODD_SEPARATORS = ['\x0b', '\x0c', '\x1c', '\x1d', '\x1e', '\x85', '\u2028', '\u2029']
 
 
-def build_case(rng, tier):
-    lay = st.gen_layout(rng, rich=True)
+def build_case(rng, tier, i=None):
+    # one run in nine (by the run index) is a statement with no delimiter configured in which nearly every description carries the
+    # same punctuation, one profile after the other: what guesses the dialect from the text has something to latch on to
+    prof = ('apostrophes', 'semicolons', 'bars', 'backslashes', 'tabs')[(i // 9) % 5] if i is not None and i % 9 == 4 else None
+    lay = st.gen_layout(rng, rich=True, delimiter=None) if prof else st.gen_layout(rng, rich=True)
     rich = lay['delimiter'] != 'regex'
     big = rng.random() < 0.06
     # sizes vary: now and then a statement of a few hundred rows (longer than any read-ahead block or small cache)
-    rows = st.gen_rows(rng, rng.randint(130, 420) if big else rng.randint(1, 8), first_id=1, allow_rich=rich)
+    rows = st.gen_rows(rng, rng.randint(130, 420) if big else rng.randint(3 if prof else 1, 8), first_id=1, allow_rich=rich, profile=prof)
     if rich and lay['mode'] == 1 and lay['eol'] == '\n' and rng.random() < 0.25:
         # a quoted cell spanning several physical lines, some of them empty or blank
         r = rng.choice(rows)
@@ -502,7 +505,7 @@ def execute(case, scratch):
 
 def run_one(seed, i, tier, scratch):
     rng = util.rng_for(seed, ID, i)
-    case = build_case(rng, tier)
+    case = build_case(rng, tier, i)
     res = execute(case, scratch)
     for v in res['violations']:
         v['schedule']['seed'] = seed
